@@ -508,8 +508,119 @@ class Body:
             else:
                 base = ("proj?", base, e.get("text", ""))
         if read and through_ref:
+            fwd = self._forwarded_store(place, site)
+            if fwd is not None:
+                return fwd
             return ("load", base, site)
         return base
+
+    # ------------------------------------------------------ store-to-load forwarding through a reference
+    @staticmethod
+    def _place_key(place):
+        return (place["local"], tuple((e["k"], e.get("owner"), e.get("name")) for e in place["proj"]))
+
+    def _forwarded_store(self, place, site):
+        """`(*r).f = x; … ; use of (*r).f`: the value read is x when that store dominates the read and nothing in between can
+        have written the field (another store to it or to a part of / the whole of it, the reference reassigned, re-borrowed
+        mutably or handed to a call).  Sound for `&mut` by Rust's aliasing rules: while r is live nothing else writes *r."""
+        if os.environ.get("SODG_NO_FORWARD"):
+            return None
+        key = self._place_key(place)
+        pj = key[1]
+        if len(pj) < 2 or pj[0][0] != "deref" or any(k[0] != "field" for k in pj[1:]):
+            return None
+        if getattr(self, "_stores", None) is None:
+            self._stores = {}
+            for bi in self.reachable:
+                for si, st in enumerate(self.blocks[bi]["stmts"]):
+                    if st.get("k") == "assign" and st["lhs"]["proj"]:
+                        self._stores.setdefault(self._place_key(st["lhs"]), []).append((bi, si))
+            self._fwd_cache = {}
+        ck = (key, site)
+        if ck in self._fwd_cache:
+            return self._fwd_cache[ck]
+        self._fwd_cache[ck] = None
+        cands = [S for S in self._stores.get(key, []) if S != site and self.dominates(S, site)]
+        if not cands:
+            return None
+        # the closest dominating store: the one every other candidate dominates
+        S = cands[0]
+        for c in cands[1:]:
+            if self.dominates(S, c):
+                S = c
+        st = self.blocks[S[0]]["stmts"][S[1]]
+        if st["rv"]["k"] != "use" or self._killed_between(key, S, site):
+            return None
+        try:
+            v = self.expr_operand(st["rv"]["op"], S)
+        except RecursionError:
+            return None
+        self._fwd_cache[ck] = v
+        return v
+
+    def _killed_between(self, key, S, L):
+        loc, pj = key
+
+        def overlaps(p2):
+            n = min(len(pj), len(p2))
+            return tuple(p2[:n]) == tuple(pj[:n])
+
+        def kills(bi, si):
+            blk = self.blocks[bi]
+            if si < len(blk["stmts"]):
+                st = blk["stmts"][si]
+                if st.get("k") != "assign":
+                    return False
+                l = st["lhs"]
+                if l["local"] == loc and (not l["proj"] or overlaps(self._place_key(l)[1])):
+                    return True
+                rv = st["rv"]
+                if rv["k"] in ("ref", "rawptr") and rv["place"]["local"] == loc and (rv.get("mut") or rv["k"] == "rawptr") and \
+                        overlaps(self._place_key(rv["place"])[1]):
+                    return True
+                ops = [rv.get(k) for k in ("op", "l", "r", "x")] + list(rv.get("ops", []))
+                for o in ops:
+                    if isinstance(o, dict) and o.get("k") in ("move", "copy") and o["place"]["local"] == loc and not o["place"]["proj"]:
+                        return True
+                return False
+            t = blk["term"]
+            if t["k"] == "call":
+                for o in t["args"]:
+                    if o.get("k") in ("move", "copy") and o["place"]["local"] == loc and not o["place"]["proj"]:
+                        return True
+                if t["dest"]["local"] == loc:
+                    return True
+            return False
+        # blocks on a path from S to L
+        fw, st = set(), [x for x, _ in self.succ[S[0]]]
+        while st:
+            x = st.pop()
+            if x in fw:
+                continue
+            fw.add(x)
+            st.extend(y for y, _ in self.succ[x])
+        bw, st = set(), [p for p, _ in self.pred[L[0]]]
+        while st:
+            x = st.pop()
+            if x in bw:
+                continue
+            bw.add(x)
+            st.extend(p for p, _ in self.pred[x])
+        cyc_s = S[0] in fw          # S's block lies on a cycle
+        if S[0] == L[0] and S[1] < L[1] and not cyc_s:
+            return any(kills(S[0], i) for i in range(S[1] + 1, L[1]))
+        between = (fw & bw) - ({S[0], L[0]} if not cyc_s else set())
+        for bi in between:
+            n = len(self.blocks[bi]["stmts"]) + 1
+            if any(kills(bi, i) for i in range(n) if (bi, i) != S):
+                return True
+        if not cyc_s:
+            n = len(self.blocks[S[0]]["stmts"]) + 1
+            if any(kills(S[0], i) for i in range(S[1] + 1, n)):
+                return True
+            if any(kills(L[0], i) for i in range(0, L[1])):
+                return True
+        return False
 
     def expr_rvalue(self, rv, site):
         k = rv["k"]
